@@ -1,8 +1,9 @@
 (* Extraction of the C01/C02 box model for the correspondence check. ExtrOcamlBasic only. *)
 From V.lib Require Import Base.
-From V.c01 Require Import C01Codec C01Model C01FileModel.
+From V.c01 Require Import C01Codec C01Model C01FileModel C01GenModel C01GenFileModel.
 Require Import ExtrOcamlBasic.
 Separate Extraction
   decode size_box encode_w encode_sw raw_box exact_box box_name leaf_table cont_table pre_table rsv_dc why_box decode_file encode_seq dflt_rsv
   hdr_size_field lenN bytes_eqb Z.of_N
-  decode_file_sr file_frag file_encode_w file_encode_sw.
+  decode_file_sr file_frag file_encode_w file_encode_sw
+  gen2 gen2_ok gen2_file gen2_file_ok.
